@@ -33,7 +33,7 @@ func init() {
 			Property: "C01", Engine: "kexplore", Level: "model_checking",
 			Jobs:   scenarioJobs("C01", C01Scenarios),
 			Rule:   "every interleaving (state-key pruned, unbounded preemptions) of the store/router/sender submissions of 2-3 concurrent requests on one promise id with the time-out sweep, a clock step onto the deadline, <=1 injected before/after-commit failure, <=1 crash and (pending setups) <=1 store read delivered late, from 5 setup states; distinct = distinct (responses, final database) vectors per scenario",
-			Assume: engineAAssume, QuickS: 120, ThoroughS: 1500,
+			Assume: engineAAssume, QuickS: 200, ThoroughS: 1500,
 		}
 	}
 }
